@@ -88,6 +88,12 @@ class CallMixin:
             hm = self.st.ghost.get("host_methods", {}).get(attr)
             if hm is not None:
                 return self.st.register(BoundMethod(hm, obj))
+            hf = self.st.ghost.get("host_fields", {}).get(attr)
+            if hf is not None:
+                # a plain data attribute of the documented plugin interface: reading it runs no plugin code
+                res = self.hostfn("getattr_" + attr, "res")(obj)
+                self.assume_shape(res, hf)
+                return res
             if attr in ("decode", "hex") and self.ctx.must(
                     z3.Select(self.st.typeof, Val.r(obj)) == self.table.id("bytes")):
                 return self.st.register(BoundMethod(BuiltinFn("bytes." + attr), obj))
@@ -423,6 +429,16 @@ class CallMixin:
         return bound
 
     def eval_default(self, fi, expr):
+        if isinstance(expr, (ast.Dict, ast.List, ast.Set, ast.ListComp, ast.DictComp, ast.SetComp)):
+            # a mutable default is created once, when the function is defined, and shared by every call: at any given
+            # call it is an already existing container holding whatever earlier calls left in it
+            cache = self.st.ghost.setdefault("_mutable_defaults", {})
+            key = (fi.key, ast.dump(expr), getattr(expr, "lineno", 0), getattr(expr, "col_offset", 0))
+            if key not in cache:
+                from .contract import DICT, LIST
+                p = DICT() if isinstance(expr, (ast.Dict, ast.DictComp)) else LIST()
+                cache[key] = self.make_param("shared_default", p)
+            return cache[key]
         fr = Frame(None, None, fi.cls, module=fi.module)
         self.frames.append(fr)
         try:
@@ -496,13 +512,24 @@ class CallMixin:
             except ReturnEx as r:
                 ret = r.value
             if is_gen:
-                return self.st.new_list(self.st.ghost["yields"][-1], "list")
+                return self.generator_result(self.st.ghost["yields"][-1])
             return ret
         finally:
             if is_gen:
                 self.st.ghost["yields"].pop()
             self.depth -= 1
             self.frames.pop()
+
+    def generator_result(self, ys):
+        """The values a generator yields, as a list (generators are consumed eagerly: the interleaving of producer and
+        consumer is not modelled).  When the generator's loop was verified for an arbitrary iteration the overall
+        sequence is abstract: some list (its elements typed by the contract's result sort, when declared)."""
+        if id(ys) in self.st.ghost.get("yields_abstract", ()):
+            arr = self.ctx.fresh("gen_items", ArrIV)
+            n = self.ctx.fresh("gen_n", I)
+            self.ctx.assume(n >= 0)
+            return self.st.new_list_arr(arr, n, "list")
+        return self.st.new_list(ys, "list")
 
     def call_symbolic(self, sc, args, kwargs, node, anchor):
         self.st.mark_escaped(*args)
